@@ -261,10 +261,10 @@ Proof.
   destruct Hfacts as [Hs [Hst [Hsp Hstepk]]].
   assert (Hind : (match s_step k with
                   | None => Ok (start, Some stop, step)
-                  | Some st => if st >? 0 then Ok (start, Some stop, step)
+                  | Some st => if st >=? 0 then Ok (start, Some stop, step)
                                else Ok (start, (if stop <? 0 then None else Some stop), step)
                   end) = Ok (start, Some stop, step)).
-  { destruct (s_step k) as [s|]; [|reflexivity]. destruct (s >? 0) eqn:E; [reflexivity|lia]. }
+  { destruct (s_step k) as [s|]; [|reflexivity]. destruct (s >=? 0) eqn:E; [reflexivity|lia]. }
   rewrite Hind. cbn [bind]. destruct (step <? 0) eqn:Eneg; [lia|].
   destruct (stop <=? start) eqn:Ese.
   - (* empty slice *)
